@@ -13,54 +13,132 @@ theorem canonicalPos_of_split : ∀ (singles starL : List Param), (∀ p ∈ sin
     have ih := canonicalPos_of_split singles starL (fun q hq => h q (List.mem_cons_of_mem _ hq)) hs
     simp [canonicalPos, hp, ih]
 
-theorem startsWithWord_renderOpts (cs : List Choice) (r : List Tok) (hr : startsWithWord r = false) :
-    startsWithWord (renderOpts cs ++ r) = false := by
-  cases cs with
-  | nil => simpa [renderOpts] using hr
-  | cons c cs =>
-    simp only [renderOpts, List.flatMap_cons, Choice.render, Choice.tok]
-    cases c.short <;> cases c.eq <;> split <;> simp [startsWithWord]
+theorem startsRun_render (c : Choice) (r : List Tok) : startsRun (c.render ++ r) = false := by
+  by_cases hk : c.p.kind = .flag <;> cases hs : c.short <;> cases hg : c.glued <;> cases he : c.eq <;>
+    simp [Choice.render, Choice.tok, hk, hs, hg, he, startsRun]
+
+theorem startsRun_renderItem (it : Item) (r : List Tok) : startsRun (it.render ++ r) = false := by
+  cases it with
+  | one c => exact startsRun_render c r
+  | cluster f jf fs c => simp [Item.render, startsRun]
+
+theorem startsRun_renderItems (l : List Item) (r : List Tok) (hr : startsRun r = false) :
+    startsRun (renderItems l ++ r) = false := by
+  cases l with
+  | nil => simpa [renderItems] using hr
+  | cons it l =>
+    simp only [renderItems, List.flatMap_cons, List.append_assoc]
+    exact startsRun_renderItem it _
 
 theorem render_ne_nil (c : Choice) : c.render ≠ [] := by
-  simp only [Choice.render]
-  cases c.short <;> cases c.eq <;> split <;> simp
+  by_cases hk : c.p.kind = .flag <;> cases hs : c.short <;> cases hg : c.glued <;> cases he : c.eq <;>
+    simp [Choice.render, hk, hs, hg, he]
+
+theorem renderItem_ne_nil (it : Item) : it.render ≠ [] := by
+  cases it with
+  | one c => exact render_ne_nil c
+  | cluster f jf fs c => simp [Item.render]
+
+/-- neither an ambiguous abbreviation, nor outside the token alphabet, nor the separator -/
+def Tok.plain (tbl : List OptSpec) (t : Tok) : Prop := ambiguousTok tbl t = false ∧ Tok.isOther t = false ∧ t ≠ .sep
 
 /-- what a choice writes is neither an ambiguous abbreviation nor outside the token alphabet -/
 theorem choice_toks_fine {ps : List Param} (hok : paramsOk ps = true) {c : Choice} (hc : c.ok ps) :
-    ∀ t ∈ c.render, ambiguousTok (optTable ps) t = false ∧ Tok.isOther t = false := by
+    ∀ t ∈ c.render, Tok.plain (optTable ps) t := by
   obtain ⟨hne, g, hres⟩ := resolve_choice hok hc
-  have hl : ambiguousTok (optTable ps) (.long c.longName) = false ∧ Tok.isOther (.long c.longName) = false := by
-    refine ⟨by simp [ambiguousTok, hres, Resolved.isAmbiguous], ?_⟩
+  have hl : Tok.plain (optTable ps) (.long c.longName) := by
+    refine ⟨by simp [ambiguousTok, hres, Resolved.isAmbiguous], ?_, by simp⟩
     cases hn : c.longName with
     | nil => exact absurd hn hne
     | cons a l => rfl
-  have he : ambiguousTok (optTable ps) (.eq c.longName c.w) = false ∧ Tok.isOther (.eq c.longName c.w) = false :=
-    ⟨by simp [ambiguousTok, hres, Resolved.isAmbiguous], rfl⟩
+  have he : Tok.plain (optTable ps) (.eq c.longName c.w) :=
+    ⟨by simp [ambiguousTok, hres, Resolved.isAmbiguous], rfl, by simp⟩
   intro t ht
-  simp only [Choice.render, Choice.tok] at ht
-  cases hs : c.short <;> cases hq : c.eq <;> simp only [hs, hq] at ht <;> split at ht <;> simp at ht
+  by_cases hk : c.p.kind = .flag <;> cases hs : c.short <;> cases hg : c.glued <;> cases hq : c.eq <;>
+    simp only [Choice.render, Choice.tok, hk, hs, hg, hq, if_true, if_false, Bool.false_eq_true, List.mem_cons,
+      List.not_mem_nil, or_false] at ht
   all_goals (first | (rcases ht with rfl | rfl) | subst ht)
-  all_goals first | exact hl | exact he | exact ⟨rfl, rfl⟩
+  all_goals first | exact hl | exact he | exact ⟨rfl, rfl, by simp⟩
 
-theorem ambiguousTok_renderOpts {ps : List Param} (hok : paramsOk ps = true) {cs : List Choice}
-    (h : ∀ c ∈ cs, c.ok ps) : ∀ t ∈ renderOpts cs, ambiguousTok (optTable ps) t = false ∧ Tok.isOther t = false := by
+theorem item_toks_fine {ps : List Param} (hok : paramsOk ps = true) {it : Item} (hit : it.ok ps) :
+    ∀ t ∈ it.render, Tok.plain (optTable ps) t := by
+  cases it with
+  | one c => exact choice_toks_fine hok hit
+  | cluster f jf fs c =>
+    intro t ht
+    simp only [Item.render, List.mem_cons] at ht
+    rcases ht with rfl | ht
+    · exact ⟨rfl, rfl, by simp⟩
+    · split at ht
+      · simp at ht
+      · simp at ht; subst ht; exact ⟨rfl, rfl, by simp⟩
+
+theorem plain_renderItems {ps : List Param} (hok : paramsOk ps = true) {l : List Item}
+    (h : ∀ it ∈ l, it.ok ps) : ∀ t ∈ renderItems l, Tok.plain (optTable ps) t := by
   intro t ht
-  simp only [renderOpts, List.mem_flatMap] at ht
-  obtain ⟨c, hc, htc⟩ := ht
-  exact choice_toks_fine hok (h c hc) t htc
+  simp only [renderItems, List.mem_flatMap] at ht
+  obtain ⟨it, hit, htc⟩ := ht
+  exact item_toks_fine hok (h it hit) t htc
 
-theorem ambiguousTok_renderPos (tbl : List OptSpec) (xs : List PosArg) :
-    ∀ t ∈ renderPos xs, ambiguousTok tbl t = false ∧ Tok.isOther t = false := by
+theorem plain_renderPos (tbl : List OptSpec) (xs : List PosArg) : ∀ t ∈ renderPos xs, Tok.plain tbl t := by
   intro t ht
   simp only [renderPos, List.mem_map] at ht
   obtain ⟨x, _, rfl⟩ := ht
-  exact ⟨rfl, rfl⟩
+  exact ⟨rfl, rfl, by simp⟩
+
+theorem isWord_renderPos (xs : List PosArg) : ∀ t ∈ renderPos xs, Tok.isWord t = true := by
+  intro t ht
+  simp only [renderPos, List.mem_map] at ht
+  obtain ⟨x, _, rfl⟩ := ht
+  rfl
+
+/-! ### the separator -/
+
+theorem sepOk_append_noSep : ∀ (l r : List Tok), (∀ t ∈ l, t ≠ .sep) → sepOk (l ++ r) = sepOk r
+  | [], _, _ => rfl
+  | t :: l, r, h => by
+    have ih := sepOk_append_noSep l r (fun x hx => h x (List.mem_cons_of_mem _ hx))
+    have ht := h t (by simp)
+    cases t <;> simp_all [sepOk]
+
+theorem sepOk_words : ∀ (l : List Tok), (∀ t ∈ l, Tok.isWord t = true) → sepOk l = true
+  | [], _ => rfl
+  | t :: l, h => by
+    have ih := sepOk_words l (fun x hx => h x (List.mem_cons_of_mem _ hx))
+    have ht := h t (by simp)
+    cases t <;> simp_all [sepOk, Tok.isWord]
+
+theorem sepOk_of_plain {tbl : List OptSpec} {l : List Tok} (h : ∀ t ∈ l, Tok.plain tbl t) : sepOk l = true := by
+  have := sepOk_append_noSep l [] (fun t ht => (h t ht).2.2)
+  simpa [sepOk] using this
+
+/-- a separator inside a run of positional strings changes nothing -/
+theorem bindWords_skip_sep : ∀ (w1 : List Tok), (∀ t ∈ w1, Tok.isWord t = true) → ∀ (w2 : List Tok) (st : PState),
+    bindWords (w1 ++ .sep :: w2) st = bindWords (w1 ++ w2) st
+  | [], _, w2, st => by simp [bindWords]
+  | t :: w1, h, w2, st => by
+    have ih := bindWords_skip_sep w1 (fun x hx => h x (List.mem_cons_of_mem _ hx)) w2
+    have ht := h t (by simp)
+    cases t with
+    | word w =>
+      simp only [List.cons_append, bindWords]
+      split
+      · exact ih _
+      · split
+        · rfl
+        · split <;> exact ih _
+    | _ => simp [Tok.isWord] at ht
+
+theorem sepLeads_of_not_sep {r : List Tok} (st : PState) (h : ∀ r', r ≠ .sep :: r') : sepLeads r st = st := by
+  cases r with
+  | nil => rfl
+  | cons t r => cases t <;> first | rfl | exact absurd rfl (h r)
 
 /-- the positional run of a written command line is bound completely -/
 theorem bindWords_all {singles starL : List Param} (hsing : ∀ p ∈ singles, p.kind = .positional)
     (hstar : starL = [] ∨ ∃ sp, starL = [sp] ∧ sp.kind = .varPositional)
     {pargs sargs : List PosArg} (hp : posOk singles pargs) (hs : ∀ x ∈ sargs, ∃ sp ∈ starL, x.ok sp)
-    (r : List Tok) (hr : startsWithWord r = false) (st : PState) (hst : st.posLeft = singles ++ starL)
+    (r : List Tok) (hr : startsRun r = false) (st : PState) (hst : st.posLeft = singles ++ starL)
     (hb : st.bound = []) (hst' : st.star = []) :
     bindWords (renderPos pargs ++ (renderPos sargs ++ r)) st
       = .cont { st with posLeft := starL, bound := (singles.zip pargs).map (fun x => (x.1.name, .one x.2.a)),
@@ -83,27 +161,46 @@ theorem bindWords_all {singles starL : List Param} (hsing : ∀ p ∈ singles, p
     rw [bindWords_star hk sargs hs' r _ rfl, bindWords_stop _ hr]
     simp [hb, hst']
 
-theorem parseCmd_roundtrip {m : Member} (hfun : m.kind = .function) (hok : paramsOk m.params = true)
+theorem renderItems_one (cs : List Choice) : renderItems (cs.map Item.one) = renderOpts cs := by
+  induction cs with
+  | nil => rfl
+  | cons c cs ih =>
+    simp only [renderItems, renderOpts, List.map_cons, List.flatMap_cons, Item.render] at ih ⊢
+    rw [ih]
+
+theorem itemChoices_one (cs : List Choice) : itemChoices (cs.map Item.one) = cs := by
+  induction cs with
+  | nil => rfl
+  | cons c cs ih =>
+    simp only [itemChoices, List.map_cons, List.flatMap_cons, Item.choices] at ih ⊢
+    rw [ih]; rfl
+
+/-- the round trip for items (options on their own and clusters), before and behind the positional strings -/
+theorem parseCmd_roundtrip_items {m : Member} (hfun : m.kind = .function) (hok : paramsOk m.params = true)
     {singles starL : List Param} (hpos : m.params.filter Param.isPos = singles ++ starL)
     (hsing : ∀ p ∈ singles, p.kind = .positional)
     (hstar : starL = [] ∨ ∃ sp, starL = [sp] ∧ sp.kind = .varPositional)
     {pargs sargs : List PosArg} (hp : posOk singles pargs) (hs : ∀ x ∈ sargs, ∃ sp ∈ starL, x.ok sp)
-    {pre post : List Choice} (hpre : ∀ c ∈ pre, c.ok m.params) (hpost : ∀ c ∈ post, c.ok m.params) :
-    parseCmd (toCmd m) (renderOpts pre ++ (renderPos pargs ++ (renderPos sargs ++ renderOpts post)))
+    {pre post : List Item} (hpre : ∀ c ∈ pre, c.ok m.params) (hpost : ∀ c ∈ post, c.ok m.params) :
+    parseCmd (toCmd m) (renderItems pre ++ (renderPos pargs ++ (renderPos sargs ++ renderItems post)))
       = some (.act (.call m.name
-          (m.params.map fun p => (p.name, argFor (finalState singles starL pargs sargs (pre ++ post)) p)))) := by
-  have hany : (renderOpts pre ++ (renderPos pargs ++ (renderPos sargs ++ renderOpts post))).any
+          (m.params.map fun p => (p.name, argFor (finalState singles starL pargs sargs (itemChoices (pre ++ post))) p)))) := by
+  have hplain : ∀ t ∈ renderItems pre ++ (renderPos pargs ++ (renderPos sargs ++ renderItems post)),
+      Tok.plain (optTable m.params) t := by
+    intro t ht
+    simp only [List.mem_append] at ht
+    rcases ht with h | h | h | h
+    · exact plain_renderItems hok hpre t h
+    · exact plain_renderPos _ _ t h
+    · exact plain_renderPos _ _ t h
+    · exact plain_renderItems hok hpost t h
+  have hany : (renderItems pre ++ (renderPos pargs ++ (renderPos sargs ++ renderItems post))).any
       (ambiguousTok (optTable m.params)) = false := by
     rw [List.any_eq_false]
     intro t ht
-    simp only [List.mem_append] at ht
-    have : ambiguousTok (optTable m.params) t = false := by
-      rcases ht with h | h | h | h
-      · exact (ambiguousTok_renderOpts hok hpre t h).1
-      · exact (ambiguousTok_renderPos _ _ t h).1
-      · exact (ambiguousTok_renderPos _ _ t h).1
-      · exact (ambiguousTok_renderOpts hok hpost t h).1
-    simp [this]
+    simp [(hplain t ht).1]
+  have hsep : sepOk (renderItems pre ++ (renderPos pargs ++ (renderPos sargs ++ renderItems post))) = true :=
+    sepOk_of_plain hplain
   have hfin : ∀ st : PState, st.posLeft = starL → st.extras = false →
       finish m st = some (.act (.call m.name (m.params.map fun p => (p.name, argFor st p)))) := by
     intro st h1 h2
@@ -111,10 +208,11 @@ theorem parseCmd_roundtrip {m : Member} (hfun : m.kind = .function) (hok : param
       rw [h1]
       rcases hstar with rfl | ⟨sp, rfl, hk⟩ <;> simp [*]
     simp [finish, hfun, this, h2]
-  have hpostW : startsWithWord (renderOpts post ++ []) = false := startsWithWord_renderOpts post [] rfl
-  simp only [parseCmd, toCmd, hany]
-  rw [scanOpts_render hok m.name pre hpre]
-  cases hw : renderPos pargs ++ (renderPos sargs ++ renderOpts post) with
+  have hpostW : startsRun (renderItems post ++ []) = false := startsRun_renderItems post [] rfl
+  have hic : itemChoices (pre ++ post) = itemChoices pre ++ itemChoices post := by simp [itemChoices]
+  simp only [parseCmd, toCmd, hany, hsep]
+  rw [scanOpts_renderItems hok m.name pre hpre]
+  cases hw : renderPos pargs ++ (renderPos sargs ++ renderItems post) with
   | nil =>
     -- no positional strings at all: nothing to bind, and no option was written after them
     have hpa : pargs = [] := by
@@ -126,7 +224,7 @@ theorem parseCmd_roundtrip {m : Member} (hfun : m.kind = .function) (hok : param
       cases sargs with
       | nil => rfl
       | cons x xs => simp [renderPos] at hw
-    have hpo : renderOpts post = [] := by subst hpa hsa; simpa [renderPos] using hw
+    have hpo : renderItems post = [] := by subst hpa hsa; simpa [renderPos] using hw
     have hsi : singles = [] := by
       subst hpa
       cases singles with
@@ -137,10 +235,10 @@ theorem parseCmd_roundtrip {m : Member} (hfun : m.kind = .function) (hok : param
       cases post with
       | nil => rfl
       | cons c cs =>
-        simp only [renderOpts, List.flatMap_cons, List.append_eq_nil_iff] at hpo
-        exact absurd hpo.1 (render_ne_nil c)
+        simp only [renderItems, List.flatMap_cons, List.append_eq_nil_iff] at hpo
+        exact absurd hpo.1 (renderItem_ne_nil c)
     subst hpost'
-    simp only [scanOpts, startsWithWord, Bool.false_and, bindWords, List.isEmpty_nil, if_true]
+    simp only [scanOpts, startsRun, Bool.false_and, bindWords, sepLeads, afterOpts, Bool.not_true]
     simp only [Bool.false_eq_true, if_false]
     rw [hfin _ (by simp [addOpts_eq, initState, hpos]) (by simp [addOpts_eq, initState])]
     simp [addOpts_eq, initState, finalState, hpos, argFor]
@@ -154,15 +252,15 @@ theorem parseCmd_roundtrip {m : Member} (hfun : m.kind = .function) (hok : param
         | nil => rfl
         | cons p ps => simp [posOk] at hp
       subst hsi
-      have := scanOpts_render hok m.name post hpost [] (addOpts (initState m) pre)
+      have := scanOpts_renderItems hok m.name post hpost [] (addOpts (initState m) (itemChoices pre))
       simp only [renderPos, List.map_nil, List.nil_append, List.append_nil] at this ⊢
       rw [this]
-      simp only [scanOpts, startsWithWord, Bool.false_and, bindWords, List.isEmpty_nil, if_true]
+      simp only [scanOpts, startsRun, Bool.false_and, bindWords, sepLeads, afterOpts, Bool.not_true]
       simp only [Bool.false_eq_true, if_false]
       rw [hfin _ (by simp [addOpts_eq, initState, hpos]) (by simp [addOpts_eq, initState])]
-      simp [addOpts_eq, initState, finalState, hpos, optEntries]
+      simp [addOpts_eq, initState, finalState, hpos, optEntries, hic]
     · -- a positional run: first scan stops in front of it
-      have hsw : startsWithWord (renderPos pargs ++ (renderPos sargs ++ renderOpts post)) = true := by
+      have hsw : startsWithWord (renderPos pargs ++ (renderPos sargs ++ renderItems post)) = true := by
         cases pargs with
         | cons x xs => simp [renderPos, startsWithWord]
         | nil =>
@@ -170,24 +268,128 @@ theorem parseCmd_roundtrip {m : Member} (hfun : m.kind = .function) (hok : param
           | cons x xs => simp [renderPos, startsWithWord]
           | nil => simp at hnw
       have hstop : ∀ st, scanOpts m.name (optTable m.params)
-          (renderPos pargs ++ (renderPos sargs ++ renderOpts post)) st
-            = .cont st (renderPos pargs ++ (renderPos sargs ++ renderOpts post)) := by
+          (renderPos pargs ++ (renderPos sargs ++ renderItems post)) st
+            = .cont st (renderPos pargs ++ (renderPos sargs ++ renderItems post)) := by
         intro st
         rw [hw] at hsw ⊢
         cases t <;> simp_all [scanOpts, startsWithWord]
+      have hrun : startsRun (renderPos pargs ++ (renderPos sargs ++ renderItems post)) = true := by
+        rw [hw] at hsw ⊢
+        cases t <;> simp_all [startsRun, startsWithWord]
+      have hlead : ∀ st, sepLeads (renderPos pargs ++ (renderPos sargs ++ renderItems post)) st = st := by
+        intro st
+        rw [hw] at hsw ⊢
+        cases t <;> simp_all [sepLeads, startsWithWord]
       rw [hstop]
       have hcanon := canonicalPos_of_split singles starL hsing hstar
-      have hpl : (addOpts (initState m) pre).posLeft = singles ++ starL := by simp [addOpts_eq, initState, hpos]
-      simp only [hsw, hpl, hcanon, Bool.not_true, Bool.and_false, Bool.false_eq_true, if_false]
-      have hb := bindWords_all hsing hstar hp hs (renderOpts post ++ []) hpostW (addOpts (initState m) pre) hpl
+      have hpl : (addOpts (initState m) (itemChoices pre)).posLeft = singles ++ starL := by simp [addOpts_eq, initState, hpos]
+      simp only [hrun, hlead, hpl, hcanon, Bool.not_true, Bool.and_false, Bool.false_eq_true, if_false]
+      have hb := bindWords_all hsing hstar hp hs (renderItems post ++ []) hpostW (addOpts (initState m) (itemChoices pre)) hpl
         (by simp [addOpts_eq, initState]) (by simp [addOpts_eq, initState])
       simp only [List.append_nil] at hb
       rw [hb]
-      have := scanOpts_render hok m.name post hpost []
+      have := scanOpts_renderItems hok m.name post hpost []
       simp only [List.append_nil] at this
-      simp only [this, scanOpts, List.isEmpty_nil, if_true]
+      simp only [this, scanOpts, afterOpts]
       rw [hfin _ (by simp [addOpts_eq]) (by simp [addOpts_eq, initState])]
-      simp [addOpts_eq, initState, finalState, optEntries]
+      simp [addOpts_eq, initState, finalState, optEntries, hic]
+
+theorem parseCmd_roundtrip {m : Member} (hfun : m.kind = .function) (hok : paramsOk m.params = true)
+    {singles starL : List Param} (hpos : m.params.filter Param.isPos = singles ++ starL)
+    (hsing : ∀ p ∈ singles, p.kind = .positional)
+    (hstar : starL = [] ∨ ∃ sp, starL = [sp] ∧ sp.kind = .varPositional)
+    {pargs sargs : List PosArg} (hp : posOk singles pargs) (hs : ∀ x ∈ sargs, ∃ sp ∈ starL, x.ok sp)
+    {pre post : List Choice} (hpre : ∀ c ∈ pre, c.ok m.params) (hpost : ∀ c ∈ post, c.ok m.params) :
+    parseCmd (toCmd m) (renderOpts pre ++ (renderPos pargs ++ (renderPos sargs ++ renderOpts post)))
+      = some (.act (.call m.name
+          (m.params.map fun p => (p.name, argFor (finalState singles starL pargs sargs (pre ++ post)) p)))) := by
+  have h := parseCmd_roundtrip_items hfun hok hpos hsing hstar hp hs (pre := pre.map .one) (post := post.map .one)
+    (by intro it hit; obtain ⟨c, hc, rfl⟩ := List.mem_map.mp hit; exact hpre c hc)
+    (by intro it hit; obtain ⟨c, hc, rfl⟩ := List.mem_map.mp hit; exact hpost c hc)
+  rw [← List.map_append, itemChoices_one, renderItems_one, renderItems_one] at h
+  exact h
+
+/-- the round trip with the separator `--` somewhere in or in front of the positional strings: it changes nothing (as
+long as there is a positional parameter that takes it in) -/
+theorem parseCmd_roundtrip_sep {m : Member} (hfun : m.kind = .function) (hok : paramsOk m.params = true)
+    {singles starL : List Param} (hpos : m.params.filter Param.isPos = singles ++ starL)
+    (hsing : ∀ p ∈ singles, p.kind = .positional)
+    (hstar : starL = [] ∨ ∃ sp, starL = [sp] ∧ sp.kind = .varPositional)
+    {pargs sargs : List PosArg} (hp : posOk singles pargs) (hs : ∀ x ∈ sargs, ∃ sp ∈ starL, x.ok sp)
+    {pre : List Item} (hpre : ∀ c ∈ pre, c.ok m.params)
+    (w1 w2 : List Tok) (hsplit : w1 ++ w2 = renderPos pargs ++ renderPos sargs)
+    (htake : w1 ≠ [] ∨ singles ++ starL ≠ []) :
+    parseCmd (toCmd m) (renderItems pre ++ (w1 ++ .sep :: w2))
+      = some (.act (.call m.name
+          (m.params.map fun p => (p.name, argFor (finalState singles starL pargs sargs (itemChoices pre)) p)))) := by
+  have hwords : ∀ t ∈ w1 ++ w2, Tok.isWord t = true := by
+    intro t ht
+    rw [hsplit] at ht
+    rcases List.mem_append.mp ht with h | h <;> exact isWord_renderPos _ t h
+  have hw1 : ∀ t ∈ w1, Tok.isWord t = true := fun t ht => hwords t (List.mem_append_left _ ht)
+  have hw2 : ∀ t ∈ w2, Tok.isWord t = true := fun t ht => hwords t (List.mem_append_right _ ht)
+  have hnoamb : ∀ t, Tok.isWord t = true → ambiguousTok (optTable m.params) t = false := by
+    intro t ht; cases t <;> simp_all [Tok.isWord, ambiguousTok]
+  have hany : (renderItems pre ++ (w1 ++ .sep :: w2)).any (ambiguousTok (optTable m.params)) = false := by
+    rw [List.any_eq_false]
+    intro t ht
+    simp only [List.mem_append, List.mem_cons] at ht
+    have : ambiguousTok (optTable m.params) t = false := by
+      rcases ht with h | h | rfl | h
+      · exact (plain_renderItems hok hpre t h).1
+      · exact hnoamb t (hw1 t h)
+      · rfl
+      · exact hnoamb t (hw2 t h)
+    simp [this]
+  have hsep : sepOk (renderItems pre ++ (w1 ++ .sep :: w2)) = true := by
+    rw [sepOk_append_noSep _ _ (fun t ht => (plain_renderItems hok hpre t ht).2.2),
+      sepOk_append_noSep _ _ (fun t ht hs => by subst hs; simpa [Tok.isWord] using hw1 _ ht)]
+    simpa [sepOk, List.all_eq_true] using hw2
+  have hfin : ∀ st : PState, st.posLeft = starL → st.extras = false →
+      finish m st = some (.act (.call m.name (m.params.map fun p => (p.name, argFor st p)))) := by
+    intro st h1 h2
+    have : st.posLeft.any (fun p => p.kind == .positional) = false := by
+      rw [h1]
+      rcases hstar with rfl | ⟨sp, rfl, hk⟩ <;> simp [*]
+    simp [finish, hfun, this, h2]
+  simp only [parseCmd, toCmd, hany, hsep]
+  rw [scanOpts_renderItems hok m.name pre hpre]
+  have hpl : (addOpts (initState m) (itemChoices pre)).posLeft = singles ++ starL := by simp [addOpts_eq, initState, hpos]
+  have hstop : ∀ st, scanOpts m.name (optTable m.params) (w1 ++ .sep :: w2) st = .cont st (w1 ++ .sep :: w2) := by
+    intro st
+    cases w1 with
+    | nil => simp [scanOpts]
+    | cons t ts =>
+      have := hw1 t (by simp)
+      cases t <;> simp_all [scanOpts, Tok.isWord]
+  have hrun : startsRun (w1 ++ .sep :: w2) = true := by
+    cases w1 with
+    | nil => simp [startsRun]
+    | cons t ts =>
+      have := hw1 t (by simp)
+      cases t <;> simp_all [startsRun, Tok.isWord]
+  have hlead : sepLeads (w1 ++ .sep :: w2) (addOpts (initState m) (itemChoices pre)) = addOpts (initState m) (itemChoices pre) := by
+    cases w1 with
+    | nil =>
+      have hne : singles ++ starL ≠ [] := by
+        rcases htake with h | h
+        · exact absurd rfl h
+        · exact h
+      simp [sepLeads, hpl, hne]
+    | cons t ts =>
+      have := hw1 t (by simp)
+      cases t <;> simp_all [sepLeads, Tok.isWord]
+  rw [hstop]
+  have hcanon := canonicalPos_of_split singles starL hsing hstar
+  simp only [hrun, hlead, hpl, hcanon, Bool.not_true, Bool.and_false, Bool.false_eq_true, if_false]
+  rw [bindWords_skip_sep w1 hw1, hsplit]
+  have hb := bindWords_all hsing hstar hp hs [] rfl (addOpts (initState m) (itemChoices pre)) hpl
+    (by simp [addOpts_eq, initState]) (by simp [addOpts_eq, initState])
+  simp only [List.append_nil] at hb
+  rw [hb]
+  simp only [scanOpts, afterOpts]
+  rw [hfin _ (by simp [addOpts_eq]) (by simp [addOpts_eq, initState])]
+  simp [addOpts_eq, initState, finalState, optEntries]
 
 
 /-! ### reading the final namespace -/
